@@ -454,3 +454,12 @@ def check_writers(ctx, cls, lc, seen):
                     seen.add(k)
                     ctx.check('R5', f'{f.short}: `_dead = False` only at start-up', f.name in ('_start', '__setstate__', '__init__'), f.short,
                               f'dead-flag-reset:{f.name}', f'{f.short} resets the dead cache: a worker observed dead can become alive again', where=loc(f, st))
+
+
+def run_thorough(ctx):
+    """bytecode tier (DESIGN E4): the AST-level CFG's landing statements and handler routing agree with CPython's exception tables"""
+    from ..bytecode import cross_check_all
+    st = cross_check_all(ctx)
+    ctx.stats['bytecode_tier'] = st
+    ctx.ob('E4', f"bytecode tier: {st['landing_instructions']} CALL-type landing instructions of {st['functions_cross_checked']} functions "
+                 f"({st['instructions']} instructions) are routed to the same handler as the async edges of the AST tier", True)
